@@ -39,7 +39,10 @@ def scenarios(draw):
     restarts = []
     if kind in ('create', 'update', 'sub') and draw(st.booleans()):
         restarts = sorted(draw(st.lists(st.sampled_from([0.5, 2.0, 4.0, 8.0, 15.0]), min_size=1, max_size=2, unique=True)))
-    return {'kind': kind, 'h': h, 'restarts': restarts, 'default_backoff': draw(st.sampled_from([2.0, 5.0])),
+    # downtimes: short, and day-scale (virtual time makes a multi-day outage free)
+    downs = [draw(st.sampled_from([1.0, 1.0, 3.0, 86400.0 + 2.0, 3 * 86400.0 + 1.5, 86400.0 - 1.0])) for _ in restarts]
+    h['timeout'] = draw(st.sampled_from([h['timeout'], h['timeout'], 2.5, 6.5, 600.0])) if restarts else h['timeout']
+    return {'kind': kind, 'h': h, 'restarts': restarts, 'downs': downs, 'default_backoff': draw(st.sampled_from([2.0, 5.0])),
             'lifecycle': draw(st.sampled_from(['asap', 'all_at_once'])), 'sibling': draw(st.booleans()),
             'status_sub': draw(st.booleans())}
 
@@ -93,9 +96,9 @@ def run_case(sc):
     if sc['kind'] == 'update':
         actions.append({'a': 'edit_spec', 'obj': 0, 'v': 2, 'dt': 0.0})
     t_prev = 0.0
-    for t in sc['restarts']:
+    for i, t in enumerate(sc['restarts']):
         actions.append({'a': 'advance', 'dt': t - t_prev})
-        actions.append({'a': 'restart', 'how': 'stop', 'down': 1.0, 'dt': 0.0, 'grace': 40.0})
+        actions.append({'a': 'restart', 'how': 'stop', 'down': (sc.get('downs') or [1.0] * 9)[i], 'dt': 0.0, 'grace': 10.0})
         t_prev = t
     scenario = {'seed': 1, 'spec': spec, 'cluster': {'status_sub': sc['status_sub']}, 'actions': actions, 'auto_restart': sc['kind'] != 'startup'}
     bound = sum((s.get('delay', 0) if s['o'] == 'temp' else backoff) for s in h['script']) + sum(h['duration']) * 2 + 60.0 + 4.0 * len(h['script'])
